@@ -6,3 +6,188 @@ from contracts import c04_wire
 
 harness(prop="C18", cases="c04_platforms", target="geckolib.driver.protocol.configfile:GeckoConfigFileProtocolHandler.handle",
         name="reported_config_file_names_select_existing_modules")(c04_wire.configfile_response_shipped)
+
+
+# ----------------------------------------------------- module lookup from the FILES reply
+# The REAL GeckoAsyncSpa._connect is executed up to (and including) the table lookup; the engine
+# and the block transfer are stand-ins (C06 / C01).  All shipped platform x version names are
+# looked up one after the other IN ONE PROCESS -- connections to different spas follow each
+# other in a long-running client -- and each must select exactly the module its name spells.
+import asyncio
+import importlib
+
+from contracts import c10_leaks
+from geckolib.async_spa import GeckoAsyncSpa
+from geckolib.async_tasks import AsyncTasks
+from geckolib.spa_events import GeckoSpaEvent as E
+
+
+class Reported:
+    en_build = 1
+    en_major = 2
+    en_minor = 3
+    co_build = 4
+    co_major = 5
+    co_minor = 6
+    channel = 5
+    signal_strength = 60
+    config_version = 0
+    log_version = 0
+    plateform_key = ""
+
+
+class Seen:
+    events = []
+
+
+async def record(event, **kwargs):
+    Seen.events.append((event, kwargs))
+
+
+@summary("geckolib.driver.async_udp_protocol:GeckoAsyncUdpProtocol.get", name="spa_reports",
+         note="engine stand-in (C06): the reply carries what the harness says the spa reports")
+async def spa_reports(self, create_func, destination=None, retry_count=10):
+    return Reported()
+
+
+@summary("geckolib.driver.async_spastruct:GeckoAsyncStructure.get", name="transfer_not_attempted",
+         note="transfer stand-in (C01): fails, so the handshake ends right after the table lookup")
+async def transfer_not_attempted(self, protocol, create_func, retry_count=10):
+    return False
+
+
+async def connect_reporting(name, cv, lv):
+    Reported.plateform_key = name
+    Reported.config_version = cv
+    Reported.log_version = lv
+    Seen.events = []
+    c10_leaks.arm(-1)
+    spa = GeckoAsyncSpa(b"IOSx", c10_leaks.Descr(), AsyncTasks(), record)
+    await spa.connect()
+    return spa
+
+
+def reported(event):
+    return len([e for e in Seen.events if e[0] is event])
+
+
+@harness(prop="C18", cases="c18_all_platforms_together", target="geckolib.async_spa:GeckoAsyncSpa._connect",
+         uses=["spa_reports", "transfer_not_attempted"], name="handshake_selects_exactly_the_reported_tables", timeout=600)
+async def handshake_selects_exactly_the_reported_tables(plats):
+    n = 0
+    for plat in plats["platforms"]:
+        name = plat["name"]
+        key = plat["platform"]
+        pairs = [(cv, plat["log"][0]) for cv in plat["cfg"]] + [(plat["cfg"][0], lv) for lv in plat["log"]]
+        for (cv, lv) in pairs:
+            spa = await connect_reporting(name, cv, lv)
+            n = n + 1
+            ensures("pack-table-is-the-platform's", type(spa.pack_class) is importlib.import_module("geckolib.driver.packs.%s" % key).GeckoPack)
+            ensures("config-table-is-the-reported-platform-and-version",
+                    type(spa.config_class) is importlib.import_module("geckolib.driver.packs.%s-cfg-%d" % (key, cv)).GeckoConfigStruct)
+            ensures("log-table-is-the-reported-platform-and-version",
+                    type(spa.log_class) is importlib.import_module("geckolib.driver.packs.%s-log-%d" % (key, lv)).GeckoLogStruct)
+            ensures("tables-declare-the-reported-versions", both(spa.config_class.version == cv, spa.log_class.version == lv,
+                                                                  spa.config_version == cv, spa.log_version == lv))
+            ensures("pack-declares-the-reported-platform", both(spa.pack_class.name.lower() == key, spa.pack_type == spa.pack_class.type))
+            ensures("no-lookup-failure-reported", both(reported(E.CONNECTION_CANNOT_FIND_SPA_PACK) == 0,
+                                                      reported(E.CONNECTION_CANNOT_FIND_CONFIG_VERSION) == 0,
+                                                      reported(E.CONNECTION_CANNOT_FIND_LOG_VERSION) == 0))
+            ensures("tables-belong-to-this-connection's-structure",
+                    both(spa.config_class.struct is spa.struct, spa.log_class.struct is spa.struct, spa.pack_class.struct is spa.struct))
+    ensures("every-shipped-name-was-looked-up", n == plats["lookups"])
+    cover("reached-end", n > 100)
+
+
+@harness(prop="C18", target="geckolib.async_spa:GeckoAsyncSpa._connect", uses=["spa_reports", "transfer_not_attempted"],
+         name="unknown_names_are_reported_not_guessed")
+async def unknown_names_are_reported_not_guessed(which: int):
+    """a platform / version that is not shipped: the matching lookup failure is reported, the spa stays unconnected,
+    and no table of another platform or version is used instead"""
+    requires(both(0 <= which, which <= 2))
+    which = concrete_cases(which, 0, 2)
+    await connect_reporting("inYT", 53, 53)          # an earlier, successful lookup in the same process
+    if which == 0:
+        spa = await connect_reporting("inNOPE", 53, 53)
+        ensures("missing-platform-reported-once", reported(E.CONNECTION_CANNOT_FIND_SPA_PACK) == 1)
+        ensures("no-table-used", both(spa.pack_class is None, spa.config_class is None, spa.log_class is None))
+    elif which == 1:
+        spa = await connect_reporting("inYT", 999, 53)
+        ensures("missing-config-version-reported-once", reported(E.CONNECTION_CANNOT_FIND_CONFIG_VERSION) == 1)
+        ensures("no-table-used", both(spa.config_class is None, spa.log_class is None))
+    else:
+        spa = await connect_reporting("inYT", 53, 999)
+        ensures("missing-log-version-reported-once", reported(E.CONNECTION_CANNOT_FIND_LOG_VERSION) == 1)
+        ensures("no-table-used", spa.log_class is None)
+    ensures("spa-not-connected", both(not spa.is_connected, reported(E.CONNECTION_SPA_COMPLETE) == 0,
+                                      reported(E.CONNECTION_INITIAL_DATA_BLOCK_REQUEST) == 0))
+
+
+# ------------------------------------------------ the blocking client's lookup (spa.py)
+import threading
+
+from geckolib.spa import GeckoSpa
+from geckolib.driver.spastruct import GeckoStructure
+from geckolib.driver.protocol.statusblock import GeckoStatusBlockProtocolHandler
+
+
+def blocking_spa():
+    spa = new(GeckoSpa)
+    spa._lock = threading.Lock()
+    spa._receive_handlers = []
+    spa._send_handlers = []
+    spa._sequence_counter_protocol = 0
+    spa._sequence_counter_command = 191
+    spa.is_in_error = False
+    spa.struct = GeckoStructure(None)
+    spa.new_pack_class = None
+    spa.new_config_class = None
+    spa.new_log_class = None
+    spa.pack_type = None
+    return spa
+
+
+@harness(prop="C18", cases="c18_all_platforms_together", target="geckolib.spa:GeckoSpa._on_config_received",
+         name="blocking_handshake_selects_exactly_the_reported_tables", timeout=600)
+def blocking_handshake_selects_exactly_the_reported_tables(plats):
+    n = 0
+    sender = ("10.0.0.9", 10022, b"SPA", b"IOS")
+    for plat in plats["platforms"]:
+        key = plat["platform"]
+        pairs = [(cv, plat["log"][0]) for cv in plat["cfg"]] + [(plat["cfg"][0], lv) for lv in plat["log"]]
+        for (cv, lv) in pairs:
+            spa = blocking_spa()
+            Reported.plateform_key = plat["name"]
+            Reported.config_version = cv
+            Reported.log_version = lv
+            spa._on_config_received(Reported(), sender)
+            n = n + 1
+            ensures("pack-table-is-the-platform's", type(spa.new_pack_class) is importlib.import_module("geckolib.driver.packs.%s" % key).GeckoPack)
+            ensures("config-table-is-the-reported-platform-and-version",
+                    type(spa.new_config_class) is importlib.import_module("geckolib.driver.packs.%s-cfg-%d" % (key, cv)).GeckoConfigStruct)
+            ensures("log-table-is-the-reported-platform-and-version",
+                    type(spa.new_log_class) is importlib.import_module("geckolib.driver.packs.%s-log-%d" % (key, lv)).GeckoLogStruct)
+            ensures("versions-recorded", both(spa.config_version == cv, spa.log_version == lv, spa.pack_type == spa.new_pack_class.type))
+            ensures("then-exactly-one-full-block-request-is-registered-and-queued",
+                    both(len(spa._receive_handlers) == 1, len(spa._send_handlers) == 1,
+                         spa._send_handlers[0][0] is spa._receive_handlers[0], spa._send_handlers[0][1] == sender,
+                         isinstance(spa._receive_handlers[0], GeckoStatusBlockProtocolHandler),
+                         spa._receive_handlers[0]._content == b"STATU\x01\x00\x00\x04\x00"))
+            ensures("no-error-flagged", not spa.is_in_error)
+    ensures("every-shipped-name-was-looked-up", n == plats["lookups"])
+
+
+@harness(prop="C18", target="geckolib.spa:GeckoSpa._on_config_received", name="blocking_unknown_names_are_reported_not_guessed")
+def blocking_unknown_names_are_reported_not_guessed(which: int):
+    requires(both(0 <= which, which <= 2))
+    which = concrete_cases(which, 0, 2)
+    spa = blocking_spa()
+    (Reported.plateform_key, Reported.config_version, Reported.log_version) = [("inNOPE", 53, 53), ("inYT", 999, 53), ("inYT", 53, 999)][which]
+    raised = False
+    try:
+        spa._on_config_received(Reported(), ("10.0.0.9", 10022, b"SPA", b"IOS"))
+    except Exception:
+        raised = True
+    ensures("lookup-failure-is-raised-and-flagged", both(raised, spa.is_in_error))
+    ensures("no-block-is-requested-with-missing-tables", both(len(spa._receive_handlers) == 0, len(spa._send_handlers) == 0))
+    ensures("missing-table-stays-unset", [spa.new_pack_class, spa.new_config_class, spa.new_log_class][which] is None)
